@@ -193,6 +193,34 @@ def batch(ctx, navis, rng, tmp):
                         ctx.violation('a corrupt file affected the others (or was not skipped)', dict(desc, policy=pol, parallel=par), dict(got=got, want=want))
                     elif got != sorted(got):
                         ctx.violation('batch read order is not deterministic (sorted by file name)', dict(desc, policy=pol), dict(got=got))
+        # the same policies for precomputed MESH files
+        import trimesh
+        dm = os.path.join(tmp, 'meshbatch%d' % ci)
+        os.makedirs(dm)
+        ml = navis.NeuronList([navis.MeshNeuron(trimesh.creation.box(extents=rng.integers(2, 9, size=3).astype(float)), id=200 + j, name='m%d' % j) for j in range(k)])
+        navis.write_precomputed(ml, dm)
+        for j in bad:
+            pm = os.path.join(dm, str(200 + j))
+            rawm = open(pm, 'rb').read()
+            open(pm, 'wb').write(rawm[:int(rng.integers(1, 4))] if rng.random() < 0.5 else struct.pack('<I', 10 ** 6) + rawm[4:])
+        singlem = {j: guarded(navis.read_precomputed, os.path.join(dm, str(200 + j)), datatype='mesh', info=False) for j in range(k)}
+        detectm = [j for j in range(k) if singlem[j][0] != 'ok']
+        for pol in ('raise', 'log', 'ignore'):
+            st, res = guarded(navis.read_precomputed, dm, datatype='mesh', errors=pol, parallel=False, info=False)
+            dd = dict(desc, datatype='mesh', policy=pol, corrupt=[200 + j for j in bad])
+            ctx.count('batch:mesh:' + pol)
+            if pol == 'raise':
+                if detectm and st == 'ok':
+                    ctx.violation("errors='raise' did not raise although a mesh file is corrupt", dd)
+                if not detectm and st != 'ok':
+                    ctx.violation("errors='raise' raised although every mesh file is valid", dd, res)
+            elif st != 'ok':
+                ctx.violation("errors=%r raised instead of skipping the corrupt mesh file" % pol, dd, res)
+            else:
+                got = [int(n.id) for n in navis.NeuronList(res)]
+                want = [200 + j for j in range(k) if j not in detectm]
+                if sorted(got) != want:
+                    ctx.violation('a corrupt mesh file affected the others (or was not skipped)', dd, dict(got=got, want=want))
         # zip container + fmt
         if not bad:
             z = os.path.join(tmp, 'batch%d.zip' % ci)
